@@ -6,7 +6,7 @@ import glob, json, os, shutil, sys
 ROOT = os.path.dirname(os.path.dirname(os.path.abspath(__file__)))
 idx = json.load(open(os.path.join(ROOT, "seeded", "index.json")))
 conf = {}
-for f in sorted(glob.glob(os.path.join(ROOT, "seeded", "confirm", "*.log"))) + glob.glob("/tmp/mut/confirm*.log") + glob.glob("/tmp/mut2/confirm*.log") + glob.glob("/tmp/mut3/confirm*.log") + glob.glob("/tmp/mut4/confirm*.log") + glob.glob("/tmp/mut5/confirm*.log"):
+for f in sorted(glob.glob(os.path.join(ROOT, "seeded", "confirm", "*.log"))) + glob.glob("/tmp/mut/confirm*.log") + glob.glob("/tmp/mut2/confirm*.log") + glob.glob("/tmp/mut3/confirm*.log") + glob.glob("/tmp/mut4/confirm*.log") + glob.glob("/tmp/mut5/confirm*.log") + glob.glob("/tmp/mut6/confirm*.log"):
     for line in open(f):
         line = line.strip()
         if line.startswith("{"):
@@ -24,7 +24,7 @@ for key, e in idx.items():
     p, m = key.split("/")
     src = e.get("dir") or "/tmp/mut/%s/out/%s" % (p, m)
     dst = os.path.join(ROOT, "seeded", "%s-%s" % (p, m))
-    p = p.replace("R2-", "").replace("R3-", "").replace("R4-", "").replace("R5-", "")
+    p = p.replace("R2-", "").replace("R3-", "").replace("R4-", "").replace("R5-", "").replace("R6-", "")
     if os.path.isdir(src):
         os.makedirs(dst, exist_ok=True)
         for name in os.listdir(src):
@@ -36,7 +36,7 @@ for key, e in idx.items():
                 shutil.copytree(s, d, ignore=shutil.ignore_patterns("target", "*.log", "logs"))
             elif os.path.getsize(s) < 300000:
                 shutil.copy(s, d)
-    c = conf.get(key) or conf.get(key.replace("R2-", "r2:")) or conf.get(key.replace("R3-", "r3:")) or conf.get(key.replace("R4-", "r4:")) or conf.get(key.replace("R5-", "r5:"))
+    c = conf.get(key) or conf.get(key.replace("R2-", "r2:")) or conf.get(key.replace("R3-", "r3:")) or conf.get(key.replace("R4-", "r4:")) or conf.get(key.replace("R5-", "r5:")) or conf.get(key.replace("R6-", "r6:"))
     meta = {
         "property": p, "mutant": m, "breaks": p, "site": e["site"], "needs_to_manifest": e["needs"],
         "caught_by": e.get("caught_by", {}), "missed": e.get("missed"), "machinery_strengthened": e.get("strengthened"),
